@@ -18,7 +18,7 @@ var c03OptSets = []flags.Options{
 func c03Cfg(opts flags.Options) *DeclCfg {
 	types := []TypeSpec{{K: KString}, {K: KBool}, {K: KBool}, {K: KInt}, {K: KString, W: WSlice}, {K: KBool, W: WSlice}, {K: KString, W: WMap, MapKey: KString}, {K: KFloat64}, {W: WFunc0}, {K: KString, W: WFunc1}, {K: KBool, W: WSlicePtr}, {K: KBool, W: WPtr}, {K: KOnOff}}
 	return &DeclCfg{
-		MaxDepth: 2, MaxFan: 3, PCmds: 55, Types: types, OptsMin: 1, OptsMax: 4, SubGroupsMax: 1, NestMax: 1,
+		MaxDepth: 2, MaxFan: 3, PCmds: 55, Types: types, OptsMin: 1, OptsMax: 4, SubGroupsMax: 1, PInline: 20, NestMax: 1,
 		PNamespace: 30, PShortOnly: 15, PLongOnly: 15, PClash: 10, POptional: 10,
 		PPos: 55, PosMax: 3, PRest: 45, PExec: 60, PByTag: 40, PSubOptional: 50, PAliases: 30,
 		ParserOpts: []flags.Options{opts}, PosTypes: []TypeSpec{{K: KString}, {K: KString}, {K: KString}, {K: KInt}, {K: KString, W: WMap, MapKey: KString}},
